@@ -52,6 +52,14 @@ class Path:
         return p
 
 
+class ForkSignal(Exception):
+    """raised by inline_call in fork mode when the callee of a top-level call has several returning paths: carries
+    [(path, value)] so that the enclosing statement continues once per path instead of folding them into one"""
+    def __init__(self, results):
+        Exception.__init__(self, 'fork')
+        self.results = results
+
+
 class Trace:
     """side information gathered during evaluation of one entry function"""
 
@@ -200,9 +208,16 @@ class Evaluator:
                 t = self.E(e['e'], P, fr)
                 if t[0] == 'addr':
                     return t[1]
+                if t[0] in ('aptr', 'arr'):
+                    arr_, i_ = (t[1], t[2]) if t[0] == 'aptr' else (t, 0)
+                    if 0 <= i_ < len(arr_[1]):
+                        return arr_[1][i_]
+                    return ('unk', 'dereference outside the array')
                 if t[0] == 'sym' and t[1].startswith('this:'):
                     return t                      # *this is the object itself
                 if t[0] == 'sym':
+                    if not t[1].startswith(('fn:', 'const:', '@')):
+                        self.trace.pre_reads.setdefault(t[1] + '*', e.get('l'))
                     return ('sym', t[1] + '*')
                 return ('deref', t)
             if op == '&':
@@ -218,7 +233,8 @@ class Evaluator:
             if op in ('++', '--'):
                 tgt = e['e']
                 old = self.E(tgt, P, fr)
-                new = self.fold_int('+', old, num(1 if op == '++' else -1), e.get('t'), e.get('l')) or ('add', (old, num(1 if op == '++' else -1)))
+                new = self.array_pointer(old, num(1), '+' if op == '++' else '-') or \
+                    self.fold_int('+', old, num(1 if op == '++' else -1), e.get('t'), e.get('l')) or ('add', (old, num(1 if op == '++' else -1)))
                 self.assign(tgt, new, P, fr, e.get('l'))
                 return old if e.get('post') else new
             return ('unk', 'unary ' + op)
@@ -231,7 +247,7 @@ class Evaluator:
             if op in ('+=', '-=', '*=', '/=', '%='):
                 a = self.E(e['a'], P, fr)
                 b = self.E(e['b'], P, fr)
-                v = self.fold_int(op[0], a, b, e.get('t'), e.get('l'))
+                v = self.fold_int(op[0], a, b, e.get('t'), e.get('l')) or self.array_pointer(a, b, op[0])
                 if v is None:
                     v = self.binop(op[0], a, b) if op[0] != '%' else ('call', 'mod', (a, b))
                 self.assign(e['a'], v, P, fr, e.get('l'))
@@ -244,6 +260,9 @@ class Evaluator:
             f = self.fold_int(op, a, b, e.get('t'), e.get('l'))
             if f is not None:
                 return f
+            pa = self.array_pointer(a, b, op)
+            if pa is not None:
+                return pa
             if op in ('+', '-', '*', '/'):
                 if op == '/' and 'int' in str(e.get('t', '')) and e.get('t') in ('int', 'unsigned int', 'long', 'unsigned long'):
                     return ('call', 'intdiv', (a, b))
@@ -269,9 +288,7 @@ class Evaluator:
             return self.call(e, P, fr)
         if k == 'index':
             bt, it = self.E(e['base'], P, fr), self.E(e['idx'], P, fr)
-            if bt[0] == 'arr' and it[0] == 'num' and it[1].denominator == 1 and 0 <= int(it[1]) < len(bt[1]):
-                return bt[1][int(it[1])]
-            return ('elem', bt, it)
+            return self.elem_of(bt, it)
         if k == 'construct':
             ty_ = str(e.get('t', '')).replace('const ', '')
             if self.vecmodel and ty_.startswith('std::vector<') and not [a for a in e['args'] if a.get('k') != 'defarg']:
@@ -687,10 +704,39 @@ class Evaluator:
         args = []
         for a, p in zip(args_e, fn.params):
             args.append(self.ref_or_value(a, p, P, fr))
+        self._fork_now = getattr(self, '_fork_node', None) is e
         return self.inline_call(fn, args, this_path, P, fr)
+
+    def array_pointer(self, a, b, op):
+        """pointer arithmetic and comparison on pointers into a constant array: ('aptr', array value, index); a bare array
+        value stands for the pointer to its first element"""
+        def ap(t):
+            if t[0] == 'aptr':
+                return t[1], t[2]
+            if t[0] == 'arr':
+                return t, 0
+            return None
+        pa, pb = ap(a), ap(b)
+        if pa is not None and pb is None and op in ('+', '-'):
+            k_ = self.const_int(b)
+            if k_ is not None:
+                return ('aptr', pa[0], pa[1] + (k_ if op == '+' else -k_))
+        if pb is not None and pa is None and op == '+':
+            k_ = self.const_int(a)
+            if k_ is not None:
+                return ('aptr', pb[0], pb[1] + k_)
+        if pa is not None and pb is not None and pa[0] == pb[0]:
+            if op == '-':
+                return num(pa[1] - pb[1])
+            if op in ('==', '!=', '<', '>', '<=', '>='):
+                x, y = pa[1], pb[1]
+                return num(int({'==': x == y, '!=': x != y, '<': x < y, '>': x > y, '<=': x <= y, '>=': x >= y}[op]))
+        return None
 
     @staticmethod
     def elem_of(bt, it):
+        if bt[0] == 'aptr' and it[0] == 'num' and it[1].denominator == 1:
+            bt, it = bt[1], num(bt[2] + int(it[1]))
         if bt[0] == 'cvec' and it[0] == 'num' and it[1].denominator == 1 and 0 <= int(it[1]) < len(bt[1]) and bt[1][int(it[1])] is not None:
             return bt[1][int(it[1])]
         if bt[0] == 'arr' and it[0] == 'num' and it[1].denominator == 1 and 0 <= int(it[1]) < len(bt[1]):
@@ -702,6 +748,8 @@ class Evaluator:
         o = strip(node, casts=True)
         if o.get('k') == 'member':
             pth = self.mpath(o, P, fr)
+            if pth is not None and pth in P.mem and P.mem[pth][0] == 'alias':
+                return self.vec_key(P.mem[pth][1], P, P.mem[pth][2])
             return ('m', pth) if pth is not None else None
         if o.get('k') == 'local':
             cur = P.locals.get((fr['id'], o['id']))
@@ -905,8 +953,18 @@ class Evaluator:
         tmp = '@obj%d' % self._obj_n
         args = [self.ref_or_value(a, p_, P, fr) for a, p_ in zip(e['args'], fn.params)]
         sub = {'id': self.new_frame_id(), 'args': list(args), 'this': tmp, 'depth': fr['depth'] + 1, 'fn': fn}
+        ftypes = {x['n']: str(x.get('t', '')) for x in self.prog.records.get(ty, {}).get('fields', [])}
         for i in fn.inits:
             if i.get('member') and i.get('e') is not None:
+                ft = ftypes.get(i['member'], '')
+                tgt = strip(i['e'], casts=True)
+                if ft.endswith('&') and not ft.endswith('&&') and tgt.get('k') in ('param', 'local', 'member'):
+                    # reference member: bound to what the initialiser designates
+                    if tgt.get('k') == 'param' and not tgt.get('foreign') and tgt['i'] < len(sub['args']) and sub['args'][tgt['i']][0] == 'alias':
+                        P.mem[tmp + '.' + i['member']] = sub['args'][tgt['i']]
+                    else:
+                        P.mem[tmp + '.' + i['member']] = ('alias', i['e'], sub)
+                    continue
                 P.mem[tmp + '.' + i['member']] = self.E(i['e'], P, sub)
         outs = self.exec_block(stmts(fn.body), [P], sub, top=True) if fn.body is not None else [P]
         if len(outs) != 1 or outs[0].kind == 'exit':
@@ -920,6 +978,8 @@ class Evaluator:
         ty = str(p.get('t', ''))
         if ty.endswith('&') and not ty.endswith('&&') and not ty.startswith('const '):
             tgt = strip(a, casts=True)
+            if tgt.get('k') == 'param' and not tgt.get('foreign') and tgt['i'] < len(fr['args']) and fr['args'][tgt['i']][0] == 'alias':
+                return fr['args'][tgt['i']]
             if tgt.get('k') in ('member', 'local') or (tgt.get('k') == 'un' and tgt['op'] == '*'):
                 if tgt.get('k') == 'local':
                     cur = P.locals.get((fr['id'], tgt['id']))
@@ -994,6 +1054,8 @@ class Evaluator:
         return c[0], fr['this']
 
     def inline_call(self, fn, args, this_path, P, fr):
+        fork_here = getattr(self, '_fork_now', False)
+        self._fork_now = False
         self.trace.inlined.add(fn.q)
         self.trace.max_depth = max(self.trace.max_depth, fr['depth'] + 1)
         sub = {'id': self.new_frame_id(), 'args': list(args), 'this': this_path, 'depth': fr['depth'] + 1, 'fn': fn}
@@ -1015,6 +1077,13 @@ class Evaluator:
             r = p.ret if p.kind == 'ret' and p.ret is not None else ('unk', 'void')
             self.adopt(P, p)
             return r
+        if fork_here:
+            res = []
+            for p in outs:
+                r = p.ret if (p.kind == 'ret' and p.ret is not None) else ('unk', 'void')
+                p.kind, p.ret = 'fall', None
+                res.append((p, r))
+            raise ForkSignal(res)
         # several paths through the callee: keep P's state as the merge (members written on
         # any path become ite terms)
         base_conds = len(P.conds)
@@ -1090,12 +1159,61 @@ class Evaluator:
                 live = live[:MAX_PATHS // 2]
         return live + done
 
+    def top_call(self, e):
+        """the repository call that is the outermost operation of expression e (through copies and no-op casts), or None"""
+        e = strip(e, casts=True) if e is not None else None
+        while isinstance(e, dict) and e.get('k') == 'construct' and len(e.get('args', [])) == 1:
+            e = strip(e['args'][0], casts=True)
+        if isinstance(e, dict) and e.get('k') == 'call' and e.get('inrepo') and e.get('q'):
+            return e
+        return None
+
+    def eval_forking(self, e, P, fr):
+        """[(path, value)] of evaluating e as the outermost expression of a statement: in fork mode a callee with several
+        returning paths continues the statement once per path"""
+        if not getattr(self, 'unroll_paths', False) or self.top_call(e) is None:
+            return [(P, self.E(e, P, fr))]
+        saved = getattr(self, '_fork_node', None)
+        self._fork_node = self.top_call(e)
+        try:
+            try:
+                v = self.E(e, P, fr)
+            finally:
+                self._fork_node = saved
+                self._fork_now = False
+            return [(P, v)]
+        except ForkSignal as fs:
+            return fs.results
+
     def exec_stmt(self, s, P, fr):
         if s is None:
             return [P]
         k = s['k']
         if k == 'block':
             return self.exec_block(s['s'], [P], fr)
+        if getattr(self, 'unroll_paths', False):
+            if k == 'decl' and len(s['vars']) == 1 and s['vars'][0].get('init') is not None and not s['vars'][0].get('static') and \
+                    not str(s['vars'][0].get('t', '')).endswith('&') and self.top_call(s['vars'][0]['init']) is not None:
+                v0 = s['vars'][0]
+                outs_ = []
+                for Q, val in self.eval_forking(v0['init'], P, fr):
+                    Q.locals[(fr['id'], v0['id'])] = val
+                    outs_.append(Q)
+                return outs_
+            if k == 'return' and s.get('e') is not None and self.top_call(s['e']) is not None:
+                outs_ = []
+                for Q, val in self.eval_forking(s['e'], P, fr):
+                    Q.ret = val
+                    Q.kind = 'exit' if Q.exit_hit is not None else 'ret'
+                    outs_.append(Q)
+                return outs_
+            if k == 'call' and self.top_call(s) is not None:
+                outs_ = []
+                for Q, val in self.eval_forking(s, P, fr):
+                    if Q.exit_hit is not None:
+                        Q.kind = 'exit'
+                    outs_.append(Q)
+                return outs_
         if k == 'decl':
             for v in s['vars']:
                 if v.get('static'):
@@ -1501,6 +1619,8 @@ def const_object_type(ty):
     """is an object of (clang-spelled) type ty itself immutable: `const T`, `T *const`, arrays of those - not `const T *`"""
     import re
     ty = re.sub(r'(\[[^\]]*\])+$', '', str(ty).strip()).strip()
+    if re.search(r'\(\*\s*const\s*(\[[^\]]*\])*\)', ty):
+        return True         # (array of) const pointer(s) to function: T (*const[N])(args)
     if ty.endswith('const'):
         return True
     if '*' in ty or '&' in ty:
